@@ -1206,11 +1206,18 @@ pub fn gen_c12(seed: u64) -> Scenario {
     }
     let mut threads = vec![main_steps];
     let nh = g.rng.range(0, 2);
+    let mut prev_holder: Option<Elem> = None;
     for _ in 0..nh {
         if all.is_empty() {
             break;
         }
-        let e = g.rng.pick(&all).clone();
+        // sometimes the second holder wants what the first one holds: it is then blocked inside
+        // its acquisition while the faults strike
+        let e = match &prev_holder {
+            Some(p) if g.rng.chance(1, 4) => p.clone(),
+            _ => g.rng.pick(&all).clone(),
+        };
+        prev_holder = Some(e.clone());
         let spec = match &e {
             Elem::Leaf(l) if !w.leaves[*l].standalone() => TSpec::Coll { kind: CollKind::Ref, cont: ContKind::Vec, members: vec![TSpec::Leaf(*l)], poison: false },
             Elem::Leaf(l) => TSpec::Leaf(*l),
